@@ -3,6 +3,7 @@ use crate::run::Builder;
 pub mod mutex;
 pub mod sem;
 pub mod reuse;
+pub mod queue;
 pub mod cancelmix;
 pub mod park;
 pub mod scope;
@@ -18,6 +19,7 @@ pub fn lookup(name: &str) -> Option<Builder> {
         "sem" => Some(sem::build),
         "reuse" => Some(reuse::build),
         "cls" => Some(reuse::build_cls),
+        "queue" => Some(queue::build),
         "cancelmix" => Some(cancelmix::build),
         "park" => Some(park::build),
         "scope" => Some(scope::build),
